@@ -188,17 +188,39 @@ def exhaustive_neg_builtin_cases():
             inners.append(['call', 'call', [A(op), l, r]] if op == '=' else ['call', 'call', [['fun', 'call', [gt]]]])      # the grammar cannot quote `\=`
             clauses = []
             queries = []
+            neg_only = []
             k = 0
             for inner in inners:
                 n = ['not', inner]
                 ctxs = [n, ['and', n, eq(X, b)], ['and', n, ite(eq(X, b), eq(R, A('free')), eq(R, A('bound')))],
                         ['and', ['or', n, ['true']], eq(X, b)], ite(n, eq(R, A('t')), eq(R, A('e')))]
-                for body in ctxs:
+                for ci, body in enumerate(ctxs):
                     name = 't%d' % k; k += 1
+                    if ci == 0:
+                        neg_only.append(len(queries))
                     clauses.append([name, [X, Y, R], copy.deepcopy(body)])
                     clauses.append([name, [A('second'), A('clause'), V('_')], ['true']])
                     queries.append([name, [V('Q0'), V('Q1'), V('Q2')]])
-            yield {'clauses': clauses, 'queries': queries, 'origin': 'exhaustive-neg-builtin'}
+            yield {'clauses': clauses, 'queries': queries, 'origin': 'exhaustive-neg-builtin', 'neg_only': neg_only}
+
+def check_neg_binds_nothing(case, io):
+    """intrinsic oracle on the implementation alone (no model): the queries listed in case['neg_only'] ask  tK(Q0,Q1,Q2)  of
+    tK(X,Y,R) :- \\+ G.   tK(second,clause,_).   Whatever G is, every answer is either the unchanged query (three distinct unbound
+    variables: `\\+ G` never binds a variable) or the second clause."""
+    if not isinstance(io, dict) or 'queries' not in io:
+        return None
+    free = [[3, 0], [3, 1], [3, 2]]
+    second = [[0, 'second'], [0, 'clause'], [3, 0]]
+    for qi in case.get('neg_only', []):
+        if qi >= len(io['queries']):
+            continue
+        iq = io['queries'][qi]
+        if iq['end'] != 'done':
+            continue
+        for a in iq['answers']:
+            if a != free and a != second:
+                return 'query %s: the body is a single negation, but an answer has a bound or aliased query variable: \\+ G bound a variable' % case['queries'][qi][0]
+    return None
 
 # ------------------------------------------------------------------ bodies at (and just beyond) the nesting limit (C05)
 
